@@ -156,6 +156,27 @@ func classify(v ssa.Value, set map[string]bool, seen map[ssa.Value]bool, depth i
 			set[k] = true
 		}
 	case *ssa.Parameter:
+		// a parameter of a helper extracted from a pinned function stands for what its call sites pass
+		if sites := freshSites(x.Parent()); len(sites) > 0 {
+			idx := -1
+			for i, p := range x.Parent().Params {
+				if p == x {
+					idx = i
+				}
+			}
+			resolved := idx >= 0
+			for _, site := range sites {
+				if idx < 0 || idx >= len(site.Common().Args) {
+					resolved = false
+				}
+			}
+			if resolved {
+				for _, site := range sites {
+					classify(site.Common().Args[idx], set, seen, depth+1)
+				}
+				return
+			}
+		}
 		set["param:"+shortType(x.Type())] = true
 	case *ssa.FreeVar:
 		// pointer to a captured variable: resolve through the enclosing function's bindings
@@ -378,4 +399,18 @@ func LiteralStores(fn *ssa.Function, typeName string) map[*ssa.Alloc]map[string]
 		out[al][N(f)] = append(out[al][N(f)], st.Val)
 	})
 	return out
+}
+
+var (
+	freshMu    sync.RWMutex
+	freshCalls = map[*ssa.Function][]ssa.CallInstruction{} // static call sites of fresh functions (alias.go)
+)
+
+func freshSites(fn *ssa.Function) []ssa.CallInstruction {
+	if fn == nil {
+		return nil
+	}
+	freshMu.RLock()
+	defer freshMu.RUnlock()
+	return freshCalls[fn]
 }
